@@ -104,6 +104,12 @@ func execExtract(ts []string) string {
 					data[k/8] |= 1 << uint(k%8)
 				}
 			}
+			if seed%2 == 1 && n == q {
+				// a device that leaves the unused bits of the last byte set: they belong to no coil
+				for k := n; k < 8*len(data); k++ {
+					data[k/8] |= 1 << uint(k%8)
+				}
+			}
 			pdu = append([]byte{fc, byte(len(data))}, data...)
 		} else {
 			data := make([]byte, 0, 2*n)
@@ -146,6 +152,9 @@ func execExtract(ts []string) string {
 					}
 				}
 				switch {
+				case hx(resp.Bytes()) != hx(frame):
+					// extraction reads the response: the response still encodes to the frame it was parsed from
+					status = "PAYLOAD-CHANGED-BY-EXTRACTION|"
 				case xerr == nil:
 					status = "all|" + strings.Join(strs, ",")
 				case xerr == modbus.ErrorFieldExtractHadError:
